@@ -59,6 +59,8 @@ def resultStr (k : Kind) (r : Result) : String :=
   | .miniconfExc code (.inl ret) => "exc:MiniconfException:" ++ String.ofList code ++ ":" ++ jlist ret
   | .assertionError => "exc:AssertionError"
   | .none_ => "ok:null"
+  | .indexError => "exc:IndexError"
+  | .excObject => "ok:<exception object>"
 
 def parseCd (tok : String) : Option (Option Cd) :=
   if tok = "-" then some none
